@@ -1766,8 +1766,9 @@ impl<'a> Ctx<'a> {
             return Expr::Missing;
         }
 
+        // an argument without a value (`#import(|`) is a syntax error that was reported already
         let Some(arg) = args[0].value(self.tree) else {
-            unreachable!()
+            return Expr::Missing;
         };
 
         let old_diags_len = self.diagnostics.len();
@@ -1778,7 +1779,8 @@ impl<'a> Ctx<'a> {
                         .interner
                         .lookup(text)
                         .replace(['/', '\\'], std::path::MAIN_SEPARATOR_STR),
-                    _ => unreachable!(),
+                    // the literal had errors, which were reported
+                    _ => return Expr::Missing,
                 }
             }
             _ => {
